@@ -30,6 +30,9 @@ impl SnapshotWriter {
             //.append(true)
             //.create_new(true)
             .create(true)
+            // a build that was interrupted before it was catalogued leaves a file whose id is reused:
+            // its tail must not survive behind the new (possibly shorter) snapshot
+            .truncate(true)
             .open(path)
             .await?;
         let mut buf = Vec::new();
